@@ -170,6 +170,7 @@ class Module:
         self.syntax_error = False
         self.stub: bool = False     # a sibling .pyi exists (rendered from the defs, bodies elided)
         self.stub_only = False
+        self.stub_copy = False      # the stub is a byte-identical copy of the source
 
     def path(self) -> str:
         p = self.name.replace(".", "/")
@@ -202,8 +203,11 @@ class Module:
     def render_stub(self) -> str:
         import re
         text = self.render()
-        # a crude but valid stub: keep the module, it is already fully annotated
-        return re.sub(r"(?m)^(\s*)_bad: int = 'body'\n", "", text)
+        # a crude but valid stub: keep the module, it is already fully annotated.  The header line makes the
+        # stub's text differ from the source's (an identical copy is the separate `stub_copy` scenario).
+        if self.stub_copy:
+            return text
+        return "# stub\n" + re.sub(r"(?m)^(\s*)_bad: int = 'body'\n", "", text)
 
 
 class Project:
@@ -318,6 +322,8 @@ class Project:
                "add_import", "remove_import", "delete_module", "restore_module", "add_module", "stub_toggle",
                "syntax_error", "touch", "equal_size", "ignore_line", "inline_config", "base_change", "to_package",
                "drop_uses", "kind_change"]
+        if self.ops is not None and "stub_copy" in self.ops:
+            ops.append("stub_copy")
         if self.ops is not None:
             ops = [o for o in ops if o in self.ops]
         op = rng.choice(ops)
@@ -377,11 +383,13 @@ class Project:
         elif op == "stub_toggle" and not m.is_pkg:
             r = rng.random()
             if m.stub or m.stub_only:
-                m.stub = m.stub_only = False
+                m.stub = m.stub_only = m.stub_copy = False
             elif r < 0.6:
                 m.stub = True
             else:
                 m.stub_only = True
+        elif op == "stub_copy" and not m.is_pkg and not (m.stub or m.stub_only):
+            m.stub = m.stub_copy = True
         elif op == "syntax_error":
             m.syntax_error = not m.syntax_error
         elif op == "ignore_line" and m.uses:
@@ -420,8 +428,9 @@ class Project:
 CONTENT_OPS = ["sig", "body", "body_err", "extra", "rename_def", "delete_def", "add_def", "add_use", "add_import",
                "remove_import", "touch", "equal_size", "ignore_line", "inline_config", "base_change", "drop_uses", "kind_change"]
 STRUCTURE_OPS = ["delete_module", "restore_module", "add_module", "stub_toggle", "to_package"]
+ALL_DEFAULT_OPS = None  # Project.edit's own list; "stub_copy" is opt-in (ops=[..., "stub_copy"])
 BLOCKER_OPS = ["syntax_error"]
-OP_CLASS = {**{o: "content" for o in CONTENT_OPS}, **{o: "structure" for o in STRUCTURE_OPS}, "syntax_error": "blocker",
+OP_CLASS = {**{o: "content" for o in CONTENT_OPS}, **{o: "structure" for o in STRUCTURE_OPS}, "syntax_error": "blocker", "stub_copy": "stubcopy",
             "inline_config": "config", "ignore_line": "config", "revert": "revert", "init": "init", "noop": "noop", "corpus": "corpus"}
 
 
